@@ -50,6 +50,7 @@ def runaway(obs):
 def c01(case, obs):
     """on time and never early"""
     bad = runaway(obs)
+    bad += reported_ok(case, obs)      # 'the next-run time that a job reports'
     alloc = _alloc_indices(case, obs)
     for i, (op, o) in enumerate(zip(case['ops'], obs)):
         for e in execs(o):
@@ -133,9 +134,36 @@ def c02(case, obs):
     return bad
 
 
+def reported_ok(case, obs):
+    """the public control properties report the job's state: status, and next_run_datetime = the next run as a naive
+    date-time of the system time zone (microsecond resolution); controls of the same job compare equal, of different
+    jobs unequal"""
+    import datetime as _dt
+    from zoneinfo import ZoneInfo
+    bad = []
+    tz = ZoneInfo(case.get('tz', 'UTC'))
+    for i, o in enumerate(obs):
+        for j, k in o.get('ctl_eq_bad', []):
+            bad.append((i, f'controls {j} / {k}: == / != does not mean "same job"'))
+        for j, st, nrd in o.get('reported', []):
+            if j >= len(o['jobs']):
+                continue
+            jst, jn = o['jobs'][j]
+            if st != jst:
+                bad.append((i, f'control of job {j} reports status {st}, the job is {jst}'))
+            if (nrd is None) != (jn is None):
+                bad.append((i, f'control of job {j} reports next run {nrd}, the job has {jn}'))
+            elif nrd is not None:
+                want = _dt.datetime.fromtimestamp(jn // 10**9, tz).replace(tzinfo=None) + _dt.timedelta(microseconds=(jn % 10**9) // 1000)
+                got = _dt.datetime(*nrd[:7])
+                if not nrd[7] or abs((got - want).total_seconds()) > 2e-6:
+                    bad.append((i, f'control of job {j} reports next run {got} (naive: {nrd[7]}), the job runs at {want} local time'))
+    return bad[:3]
+
+
 def c07(case, obs):
     """status / next agree; finished terminal; callbacks once with the new state; store exact"""
-    bad = []
+    bad = reported_ok(case, obs)
     alloc = _alloc_indices(case, obs)
     regs: dict[int, dict[str, list[int]]] = {}
     stored: dict[int, int] = {}      # job -> key
